@@ -174,3 +174,29 @@ MUTANTS += [
     M('C10', 'nesting-table-key-in-key', 'schema.py', '        "key": ["schema", "sectiontype"],', '        "key": ["schema", "sectiontype", "multikey"],'),
     M('C10', 'default-collision-after-normalisation', 'info.py', '        if self.name == "+":\n            if key in self._default:\n                # not ideal', '        if self.name == "+":\n            if key in self._default and self._rawdefaults is None:\n                # not ideal'),
 ]
+
+MUTANTS += [
+    # ---------------- C11
+    M('C11', 'derive-drops-keymap', 'info.py', "        t._keymap.update(base._keymap)\n", ""),
+    M('C11', 'derive-drops-children-order', 'info.py', "        t._children.extend(base._children)\n        for i in range(len(t._children)):", "        t._children.extend(reversed(base._children))\n        for i in range(len(t._children)):"),
+    M('C11', 'derive-skips-computedefault', 'info.py', "                info.computedefault(t.keytype)\n", ""),
+    M('C11', 'classname-first-prefix', 'schema.py', "        if name.startswith(\".\"):\n            return self._prefixes[-1] + name", "        if name.startswith(\".\"):\n            return self._prefixes[0] + name"),
+    M('C11', 'relative-prefix-not-composed', 'schema.py', "                prefix = self._prefixes[-1] + name\n            else:\n                prefix = name", "                prefix = self._prefixes[0] + name\n            else:\n                prefix = name"),
+    M('C11', 'datatype-not-inherited', 'schema.py', "            convert = getattr(base, attrkey, None)\n            if convert is not None:\n                return convert", "            convert = getattr(base, attrkey, None)\n            if convert is not None and attrkey != 'datatype':\n                return convert"),
+    M('C11', 'component-parsed-twice', 'schema.py', "            if not self._schema.hasComponent(src):\n                self._schema.addComponent(src)\n                self.loadComponent(src)", "            if True:\n                self.loadComponent(src)"),
+    M('C11', 'extends-order-not-reversed', 'schema.py', "            sources.reverse()\n", ""),
+    M('C11', 'implements-inherited', 'schema.py', "            sectinfo = self._schema.deriveSectionType(\n                base, name, keytype, valuetype, datatype)", "            sectinfo = self._schema.deriveSectionType(\n                base, name, keytype, valuetype, datatype)\n            for _n in self._schema.gettypenames():\n                _t = self._schema.gettype(_n)\n                if _t.isabstract() and _t.hassubtype(base.name):\n                    _t.addsubtype(sectinfo)"),
+    # ---------------- C12
+    M('C12', 'extender-registered-with-base-abstract', 'schema.py', "            sectinfo = self._schema.deriveSectionType(\n                base, name, keytype, valuetype, datatype)", "            sectinfo = self._schema.deriveSectionType(\n                base, name, keytype, valuetype, datatype)\n            for _n in self._schema.gettypenames():\n                _t = self._schema.gettype(_n)\n                if _t.isabstract() and _t.hassubtype(base.name):\n                    _t.addsubtype(sectinfo)"),
+    M('C12', 'derived-schema-shares-types', 'info.py', "    new._types.update(base._types)\n    return new", "    new._types = base._types\n    return new"),
+    M('C12', 'import-not-idempotent', 'loader.py', "        if schema.hasComponent(url):\n            return\n", ""),
+    M('C12', 'abstract-named-directly-accepted', 'loader.py', "        if t.isabstract():\n            raise ZConfig.ConfigurationError(\n                \"concrete sections cannot match abstract section types;\"\n                \" found abstract type \" + repr(type_))\n", ""),
+    M('C12', 'import-module-accepted', 'loader.py', "        if not hasattr(pkg, \"__path__\"):\n            raise ZConfig.SchemaResourceError(\n                \"import name does not refer to a package\",\n                filename=filename, package=package)", "        if not hasattr(pkg, \"__path__\"):\n            return \"package:%s:%s\" % ('ZConfig.components.basic', filename)"),
+    M('C12', 'private-schema-reused-across-loads', 'loader.py', "            self._private_schema = True\n            self.schema = schema", "            self._private_schema = True\n            self.schema = schema\n            ConfigLoader._vf_last = schema\n        elif False:\n            pass"),
+    # ---------------- C13
+    M('C13', 'getdefault-alias', 'info.py', "        return copy.copy(self._default)\n\n\nclass MultiKeyInfo", "        return self._default\n\n\nclass MultiKeyInfo"),
+    M('C13', 'multikey-getdefault-alias', 'info.py', "    def getdefault(self):\n        return copy.copy(self._default)\n\n\nclass SectionInfo", "    def getdefault(self):\n        return self._default\n\n\nclass SectionInfo"),
+    M('C13', 'converted-written-back-to-default', 'matcher.py', "                    v = [vi.convert(ci.datatype) for vi in values[attr]]", "                    v = [vi.convert(ci.datatype) for vi in values[attr]]\n                    for vi in values[attr]:\n                        if vi.position[0] is None or vi.position[2] is None:\n                            vi.value = vi.value + ''\n                            vi.value = vi.value.upper() if ci.minOccurs else vi.value"),
+    M('C13', 'multikey-default-list-shared', 'matcher.py', "                        v[:] = default", "                        values[attr] = v = default if not isinstance(default, list) else (default if False else ci._default)"),
+    M('C13', 'schema-matcher-reused', 'loader.py', "        return ZConfig.matcher.SchemaMatcher(self.schema)", "        sm = getattr(self.schema, '_vf_sm', None)\n        if sm is None:\n            sm = ZConfig.matcher.SchemaMatcher(self.schema)\n            try:\n                self.schema._vf_sm = sm\n            except Exception:\n                pass\n        return sm"),
+]
